@@ -132,6 +132,8 @@ pub enum IOp {
     MinterMint { tok: TokRef, who: u8, to: u8, amount: i64 },
     TransferOwnership { to: u8, auth: AuthVar, abort: Option<u16> },
     Advance { dseq: u32 },
+    /// a probe (canonical) token changes the metadata it reports
+    ProbeSetMeta { tok: u8, meta: MetaSpec },
     Resubmit { k: u16 },
 }
 
@@ -148,6 +150,7 @@ impl IOp {
             IOp::MinterMint { .. } => "minter_mint",
             IOp::TransferOwnership { .. } => "transfer_ownership",
             IOp::Advance { .. } => "advance",
+            IOp::ProbeSetMeta { .. } => "probe_set_meta",
             IOp::Resubmit { .. } => "resubmit",
         }
     }
